@@ -60,7 +60,7 @@ type c08Callback struct {
 	K     int      // lines delivered when the callback ran
 	Inc   bool     // Parser.Incomplete() inside the callback
 	Stmts []string // dumps of the statements passed
-	Last  int      // End().Line() of the last statement passed (0 if none)
+	EOF   bool     // the reader had already reported EOF to the parser
 	Err   string
 }
 
@@ -70,7 +70,7 @@ func c08RunInteractive(p *syntax.Parser, lines []string, stopAt int, quiet bool)
 	r := &c08LineReader{lines: append([]string(nil), lines...)}
 	i := 0
 	for stmts, err := range p.InteractiveSeq(r) {
-		cb := c08Callback{K: r.k, Inc: p.Incomplete()}
+		cb := c08Callback{K: r.k, Inc: p.Incomplete(), EOF: r.eofs > 0}
 		if !quiet {
 			cb.Stmts = c08StmtDumps(stmts)
 		}
@@ -237,6 +237,11 @@ func c08Stream(c *vc.Ctx, t c08Case) *vc.Fail {
 		}
 		prefix := strings.Join(lines[:cb.K], "")
 		unf, judged := c08Unfinished(prefix, lang)
+		if cb.EOF {
+			// the parser has seen the end of the input: what it consumed is
+			// the whole program, which parses, so nothing is unfinished
+			unf, judged = false, true
+		}
 		if !judged {
 			c.Count("skipped_prefix_not_judgeable", 1)
 		} else if cb.Inc != unf {
